@@ -33,8 +33,8 @@ fn corrupt(r: &mut Rng, line: &str, sec: u8) -> String {
             match r.below(4) {
                 0 => {
                     // corrupt the k-th segment of a (made) multi-segment path
-                    let x: i64 = f[0].trim().parse::<f64>().map_or(0, |v| v as i64);
-                    let y: i64 = f[1].trim().parse::<f64>().map_or(0, |v| v as i64);
+                    let x: i64 = f[0].trim().parse::<f64>().map_or(0, |v| v.clamp(-200_000.0, 200_000.0) as i64);
+                    let y: i64 = f[1].trim().parse::<f64>().map_or(0, |v| v.clamp(-200_000.0, 200_000.0) as i64);
                     let bad = ["q:1", "1", "NaN:3", "131073:0", "", "7:"][r.below(6)];
                     let nseg = 1 + r.below(3);
                     let mut p = String::from("B");
